@@ -45,6 +45,9 @@ inductive CNeed
   | recurred (fr : Frid) (op : Cmp) (n : Nat)
   | done (fr : Frid)
   | status (fr : Frid) (st : Status)
+  | auxAny (f : Fid)                 -- `any [in frame f] is done`  (NeedDoneAux over `frame.auxes`)
+  | auxAll (f : Fid)                 -- `all [in frame f] is done`: `frame.auxes and all(…)` — falsy for no auxes
+  | auxNamed (f : Fid) (x : Frid)    -- `x in frame f is done`: `x in frame.auxes` and `x.done`
   deriving Repr
 
 structure NeedC where
@@ -64,8 +67,11 @@ def CAct.run (a : CAct) (w : World) : World × Bool :=
   | .incFrom dst src => (w.set dst (w dst + w src), false)
   | .copy src dst => (w.set dst (w src), false)
 
-def CNeed.eval (n : CNeed) (frs : Frid → FramerSt) (w : World) : Bool :=
+def CNeed.eval (auxOf : Fid → List Frid) (n : CNeed) (frs : Frid → FramerSt) (w : World) : Bool :=
   match n with
+  | .auxAny f => (auxOf f).any (fun x => (frs x).done)
+  | .auxAll f => !(auxOf f).isEmpty && (auxOf f).all (fun x => (frs x).done)
+  | .auxNamed f x => (auxOf f).contains x && (frs x).done
   | .always => true
   | .cmpD sh op v => op.holds (w sh) v
   | .cmpI a op b => op.holds (w a) (w b)
@@ -75,16 +81,16 @@ def CNeed.eval (n : CNeed) (frs : Frid → FramerSt) (w : World) : Bool :=
   | .done fr => (frs fr).done
   | .status fr st => (frs fr).status == st
 
-def NeedC.eval (n : NeedC) (frs : Frid → FramerSt) (w : World) : Bool :=
-  if n.neg then !n.need.eval frs w else n.need.eval frs w
+def NeedC.eval (auxOf : Fid → List Frid) (n : NeedC) (frs : Frid → FramerSt) (w : World) : Bool :=
+  if n.neg then !n.need.eval auxOf frs w else n.need.eval auxOf frs w
 
 /-- the concrete semantics: ids index the two tables -/
-def concreteSem (acts : List CAct) (needs : List NeedC) : Sem World :=
+def concreteSem (acts : List CAct) (needs : List NeedC) (auxOf : Fid → List Frid) : Sem World :=
   { act := fun id _ _ w => match acts[id]? with
                            | some a => a.run w
                            | none => (w, false),
     need := fun id frs _ w => match needs[id]? with
-                              | some n => n.eval frs w
+                              | some n => n.eval auxOf frs w
                               | none => false }
 
 /-! ### declared programs -/
